@@ -331,6 +331,18 @@ theorem at_most_tries_probes (kind : String) (a : Probed → List String → Res
     calls sem plan i (probeName kind tries fresh fun p r => .ret (a p r)) s ≤ tries :=
   probeName_calls_le kind a tries fresh plan i s
 
+/-- **An existing composed resource keeps its identity.** A desired resource whose name has an
+observed resource is rendered under the observed resource's model name — which stands for the
+whole identity (namespace, name) of the composed resource: the harness shows namespaced resources
+under the qualified name `<name>@<namespace>` — whatever else the function output says (e.g.
+another metadata.namespace), no candidate is drawn and no probe is issued for it. This is
+`cd.SetNamespace(or.Resource.GetNamespace()); cd.SetName(or.Resource.GetName())` of
+FunctionComposer.Compose (skeleton entries `cd.SetNamespace`, `cd.SetName`). -/
+theorem observed_identity_inherited (tries lrv : Nat) (obs : Obs) (d : Desired) (ds : List Desired) (fresh : List String)
+    (acc : List Named) (k : List Named → P) (o : CObj) (h : obsLookup obs d.rname = some o) :
+    renderFnT tries lrv obs (d :: ds) fresh acc k = renderFnT tries lrv obs ds fresh (⟨d, o.name, false⟩ :: acc) k := by
+  simp [renderFnT, h]
+
 /-! ### an outdated first read of the XR (lagging informer cache)
 
 `reconcileStaleT tries m fin rv refs` is the reconcile whose first read of the XR returned an EARLIER
